@@ -44,7 +44,7 @@ def main():
         res["demo_with_change"] = "pass" if rc == 0 else "FAIL"
         os.remove(os.path.join(d, pkgdir, "zz_seed_demo_test.go"))
         ev = tempfile.mkdtemp(prefix="wu-seed-ev-")
-        rc, out = sh([os.path.join(VERIF, "bin", "wucheck"), "-prop", "all", "-repo", d, "-verif", VERIF, "-out", ev], VERIF)
+        rc, out = sh([os.environ.get("WUCHECK", os.path.join(VERIF, "bin", "wucheck")), "-prop", "all", "-repo", d, "-verif", VERIF, "-out", ev], VERIF)
         shutil.rmtree(ev, ignore_errors=True)
         viol, cur = [], None
         for line in out.splitlines():
